@@ -476,6 +476,19 @@ func bgvProductScenario(cf bgvu.Conf) engine.Scenario {
 		ringT := p.RingT()
 		cnt := 0
 		au := u64Alphabet(t)
+		// the scale of the product / quotient as the library computes it (rlwe.Scale.Mul / Div modulo t; for the large
+		// plaintext moduli the residues t-1, (t+1)/2 multiply far beyond 2^64): must be the product / quotient in Z_t
+		sProd := p.NewScale(s1).Mul(p.NewScale(s2))
+		sQuo := p.NewScale(s1).Div(p.NewScale(s2))
+		if got, exp := sProd.Uint64(), ref.MulMod(s1%t, s2%t, t); got != exp || !sProd.Value.IsInt() {
+			failD(c, "C07/bgv/scale-arithmetic", "Scale(%d).Mul(Scale(%d)) mod %d = %s, want %d", s1, s2, t, sProd.Value.Text('f', 0), exp)
+			return
+		}
+		if got, exp := sQuo.Uint64(), ref.MulMod(s1%t, ref.InvMod(s2%t, t), t); got != exp || !sQuo.Value.IsInt() {
+			failD(c, "C07/bgv/scale-arithmetic", "Scale(%d).Div(Scale(%d)) mod %d = %s, want %d", s1, s2, t, sQuo.Value.Text('f', 0), exp)
+			return
+		}
+		c.Cover("bgv-scale-arithmetic", map[bool]string{true: "residues-above-2^32", false: "small"}[s1 > 1<<32 && s2 > 1<<32])
 		for k := 0; k < 6; k++ {
 			a := make([]uint64, n)
 			b := make([]uint64, n-k) // shorter second operand: unspecified slots are zero
@@ -518,7 +531,7 @@ func bgvProductScenario(cf bgvu.Conf) engine.Scenario {
 			prod := ringT.NewPoly()
 			copy(prod.Coeffs[0], ref.NegacyclicMul(pa.Coeffs[0], pb.Coeffs[0], t))
 			got := make([]uint64, n)
-			if err := w.ecd.DecodeRingT(prod, p.NewScale(ref.MulMod(s1%t, s2%t, t)), got); err != nil {
+			if err := w.ecd.DecodeRingT(prod, sProd, got); err != nil {
 				failD(c, "C07/bgv/DecodeRingT/error", "%v", err)
 				return
 			}
